@@ -176,6 +176,16 @@ func c09One(l *LabCtx) {
 			maxSel = len(sels)
 		}
 	}
+	// how many of the paid reports are backed by stake with a validator whose shares are not worth one token each
+	offPar := 0
+	for _, ref := range firstRef {
+		for _, o := range ref.Snap.TokenOrigins {
+			if val, err := a.StakingKeeper.GetValidator(l.Ctx, sdk.ValAddress(o.ValidatorAddress)); err == nil && !val.DelegatorShares.Equal(math.LegacyNewDecFromInt(val.Tokens)) {
+				offPar++
+			}
+		}
+	}
+	l.St.Bucket("c09|origins-on-slashed-validators=%d", minInt(offPar, 3))
 	rClass := "small"
 	if R.GT(math.NewInt(1000)) {
 		rClass = "mid"
@@ -219,6 +229,14 @@ func c09One(l *LabCtx) {
 			if d, ok := delta[string(o.DelegatorAddress)]; ok && owner[string(o.DelegatorAddress)] == rep {
 				part.Add(part, d)
 				owner[string(o.DelegatorAddress)] = "" // count a selector once
+			}
+		}
+		// the commission is credited to the reporter's own address even when none of its own stake backed the report
+		// (e.g. its own delegation sits with a validator that has left the bonded set)
+		if o, ok := owner[string(ref.Reporter)]; !ok || o == rep {
+			if d, ok := delta[string(ref.Reporter)]; ok {
+				part.Add(part, d)
+				owner[string(ref.Reporter)] = ""
 			}
 		}
 		want := new(big.Rat).Mul(new(big.Rat).SetInt(R.BigInt()), new(big.Rat).SetFrac(new(big.Int).SetUint64(power[rep]), new(big.Int).SetUint64(total)))
@@ -289,9 +307,9 @@ func c09One(l *LabCtx) {
 	}
 }
 
-var c09Populate = Profile{Name: "c09-populate", MinTx: 4, MaxTx: 9, Hostile: 0.1, GapBig: 0.02,
+var c09Populate = Profile{Name: "c09-populate", MinTx: 4, MaxTx: 9, Hostile: 0.1, GapBig: 0.02, Equivocate: 0.05, Downtime: 0.08,
 	W: map[string]float64{"submit": 30, "tip": 6, "createReporter": 8, "selectReporter": 9, "delegate": 12, "redelegate": 2, "switchReporter": 2, "proposeDispute": 0.3, "vote": 0.3,
-		"withdrawTokens": 0.1, "claimDeposits": 0, "requestAttest": 0.1, "privileged": 0, "govProposal": 0, "govVote": 0, "registerSpec": 0.2}}
+		"unjailVal": 6, "withdrawTokens": 0.1, "claimDeposits": 0, "requestAttest": 0.1, "privileged": 0, "govProposal": 0, "govVote": 0, "registerSpec": 0.2}}
 
 func init() {
 	RegisterLab(&LabDef{
